@@ -147,5 +147,49 @@ func corpus() []caseInput {
 			Groups: []gGrp{{"g0", l("IP_10.1.1.1")}, {"g1", l("IP_10.1.1.4")}}, Addrs: A, Svcs: S},
 		gVsys{Rules: []gRule{ru("r1", l("any"), l("g0"), l("tcp 80")), ru("r2", l("any"), l("g1"), l("tcp 80"))},
 			Groups: []gGrp{{"g0", l("IP_10.1.1.1")}, {"g1", l("IP_10.1.1.2")}}, Addrs: A, Svcs: S}))
+	// group names of device and target come from the same pool, contents permuted (Netspoc renumbered
+	// its groups): target group a_m has the content of device group p, another target group is named p.
+	// In the source of r1, a_m is an inserted element next to a pair (q, c_t) that cannot be equalised
+	// incrementally, so the whole list is replaced: it must name device group p, not the target's p.
+	Z := ad("Z_10.3.0.1", "Z_10.3.0.2", "Z_10.3.0.3", "Z_10.3.0.4", "Z_10.3.0.5")
+	cs = append(cs, pair("corpus:renumbered-groups-insert-then-replace",
+		gVsys{Rules: []gRule{ru("r1", l("IP_10.1.1.5", "q"), l("any"), l("any")), ru("r2", l("p"), l("any"), l("any"))},
+			Groups: []gGrp{{"p", l("IP_10.1.1.1", "IP_10.1.1.2")}, {"q", l("Z_10.3.0.1", "Z_10.3.0.2", "Z_10.3.0.3", "Z_10.3.0.4", "Z_10.3.0.5")}},
+			Addrs: append(append([]gAddr{}, A...), Z...)},
+		gVsys{Rules: []gRule{ru("r1", l("a_m", "IP_10.1.1.5", "c_t"), l("any"), l("any")), ru("r2", l("p"), l("any"), l("any"))},
+			Groups: []gGrp{{"a_m", l("IP_10.1.1.1", "IP_10.1.1.2")}, {"c_t", l("Z_10.3.0.1")}, {"p", l("IP_10.1.1.3")}},
+			Addrs: append(append([]gAddr{}, A...), Z[:1]...)}))
+	// the same with the claimed variant: p is claimed by r0 before r1 is looked at
+	cs = append(cs, pair("corpus:renumbered-groups-claimed",
+		gVsys{Rules: []gRule{ru("r0", l("p"), l("any"), l("any")), ru("r1", l("IP_10.1.1.5", "q"), l("any"), l("any"))},
+			Groups: []gGrp{{"p", l("IP_10.1.1.1", "IP_10.1.1.2")}, {"q", l("Z_10.3.0.1", "Z_10.3.0.2", "Z_10.3.0.3", "Z_10.3.0.4", "Z_10.3.0.5")}},
+			Addrs: append(append([]gAddr{}, A...), Z...)},
+		gVsys{Rules: []gRule{ru("r0", l("a_m"), l("any"), l("any")), ru("r1", l("a_m", "IP_10.1.1.5", "p"), l("any"), l("any"))},
+			Groups: []gGrp{{"a_m", l("IP_10.1.1.1", "IP_10.1.1.2")}, {"p", l("Z_10.3.0.1")}},
+			Addrs: append(append([]gAddr{}, A...), Z[:1]...)}))
+	// attributes besides the lists, different on exactly one side, incl. absent against a value
+	attr := func(mode string, f func(d, t *gRule)) {
+		d := ru("r1", l("any"), l("IP_10.1.1.1"), l("any"))
+		t := d
+		f(&d, &t)
+		keep := ru("r0", l("IP_10.1.1.1"), l("any"), l("any"))
+		cs = append(cs, pair(mode, gVsys{Rules: []gRule{keep, d}, Addrs: A[:1]}, gVsys{Rules: []gRule{keep, t}, Addrs: A[:1]}))
+	}
+	attr("corpus:rule-type-absent-on-device", func(d, t *gRule) { d.RuleType = "-" })
+	attr("corpus:rule-type-absent-in-target", func(d, t *gRule) { d.RuleType = "intrazone"; t.RuleType = "-" })
+	attr("corpus:rule-type-absent-vs-universal", func(d, t *gRule) { d.RuleType = "-"; t.RuleType = "universal" })
+	attr("corpus:rule-type-universal-vs-interzone", func(d, t *gRule) { d.RuleType = "universal" })
+	attr("corpus:log-start-absent-on-device", func(d, t *gRule) { d.LogStart = "-" })
+	attr("corpus:log-end-absent-in-target", func(d, t *gRule) { d.LogEnd = "no"; t.LogEnd = "-" })
+	attr("corpus:disabled-on-device", func(d, t *gRule) { d.Extra = "<disabled>yes</disabled>" })
+	attr("corpus:disabled-in-target", func(d, t *gRule) { t.Extra = "<disabled>yes</disabled>" })
+	attr("corpus:disabled-no-vs-absent", func(d, t *gRule) { d.Extra = "<disabled>no</disabled>" })
+	attr("corpus:description-only-on-device", func(d, t *gRule) { d.Extra = "<description>by hand</description>" })
+	attr("corpus:tag-only-in-target", func(d, t *gRule) { t.Extra = "<tag><member>t1</member></tag>" })
+	attr("corpus:action-deny-vs-drop", func(d, t *gRule) { d.Action = "deny"; t.Action = "drop" })
+	attr("corpus:to-zone-added", func(d, t *gRule) { t.To = "z2,z3" })
+	attr("corpus:from-zone-other", func(d, t *gRule) { d.From = "z3" })
+	attr("corpus:application-absent-on-device", func(d, t *gRule) { d.App = "-" })
+	attr("corpus:log-setting-only-on-device", func(d, t *gRule) { d.LogSetting = "TDC-Panorama" })
 	return cs
 }
